@@ -316,6 +316,7 @@ def validate_parallel(ctx, exes, tag, jobs=3):
 
 # ---------------------------------------------------------------- keys, shrinking
 NORM = {"out": "set_output", "setfd": "set_flow_def", "usetfd": "set_flow_def", "in": "input", "uin": "input",
+        "outself": "set_output(get_output)", "fdself": "set_flow_def(get_flow_def)",
         "flush": "flush", "rel": "release", "sub": "alloc_sub", "reg": "register_request",
         "unreg": "unregister_request", "opt": "option"}
 
@@ -519,7 +520,8 @@ def well_formed(cmds):
         elif k == "out":
             if t[1] not in live or (t[2] != "null" and t[2] not in live):
                 return False
-        elif k in ("setfd", "in", "ins", "flush", "opt", "who", "caps", "policy", "reqmode", "probeprov", "getfd", "getout"):
+        elif k in ("setfd", "in", "ins", "flush", "opt", "who", "caps", "policy", "reqmode", "probeprov", "getfd", "getout",
+                   "outself", "fdself"):
             if t[1] not in live:
                 return False
         elif k == "provide":
@@ -1238,6 +1240,11 @@ def gen_random(rng, info, quick):
                 bid += 1
         elif k < 53 and hp:
             cmds.append("flush %s" % rng.choice(hp))
+        elif k < 60 and hp and rng.chance(1, 3):
+            # what a getter returned is handed back to the setter (the pipe may hold the only reference on it)
+            p = rng.choice(hp)
+            if held[p] != "qsrc":
+                cmds.append("%s %s" % (rng.choice(["outself", "outself", "fdself"]), p))
         elif k < 60 and hp:
             p = rng.choice(hp)
             o = OPTIONS.get(held[p])
@@ -1380,6 +1387,13 @@ def directed():
         body = ["cnew p1 %s" % ty, "who p1", "cnew p2 idem", "who p2", "probeprov p2 ubuf_mgr on", "setfd p1 bB",
                 "in p1 1 1", "setfd p1 bA", "setfd p1 bA", "out p1 p2", "rcs"]
         e = Exe(body + epilogue_for(body), "directed nested check (%s)" % ty, 0)
+        e.nbody = len(body)
+        out.append(e)
+    # what a getter returned handed back to the setter while the pipe holds the only reference on it
+    for ty in ("idem", "skip", "dup"):
+        body = ["new p0 %s" % ty, "who p0", "sink s0", "who s0", "setfd p0 bA", "out p0 s0", "rel s0", "outself p0",
+                "fdself p0", "in p0 1 8", "outself p0", "rcs"]
+        e = Exe(body + epilogue_for(body), "directed set(get()) (%s)" % ty, 0)
         e.nbody = len(body)
         out.append(e)
     body = ["cnew p1 stream_switcher", "who p1", "sub q0 p1", "who q0", "rel p1", "setfd q0 bA", "rcs"]
